@@ -146,3 +146,47 @@ HELPERS = {
 }
 
 CONTROLS = {"c03_into_str_const_uncased", "c05_next_back_off_by_one"}
+
+
+# ------------------------------------------------------------------------------------------------
+# behaviour-preserving refactors: every check must stay silent (run with --all-props)
+# ------------------------------------------------------------------------------------------------
+def ctl(id_, file, old, new, desc, helpers=None):
+    m(id_, ["C%02d" % i for i in range(1, 21)], file, old, new, desc)
+    CONTROLS.add(id_)
+    if helpers:
+        HELPERS[id_] = helpers
+
+
+CONTROLS.update({"c03_into_str_const_uncased", "c05_next_back_off_by_one"})
+
+ctl("r_display_match_ref", DI, "                match *self {\n                    #(#arms),*\n                }\n            }\n        }\n    })\n}\n\nfn capture_format_string_idents",
+    "                match self {\n                    #(#arms),*\n                }\n            }\n        }\n    })\n}\n\nfn capture_format_string_idents",
+    "Display matches on `self` instead of `*self`")
+ctl("r_iter_fields_renamed", IT, "            idx: usize,\n            back_idx: usize,\n            marker:", "            front: usize,\n            back: usize,\n            marker:",
+    "iterator cursors renamed (idx -> front, back_idx -> back)",
+    helpers=[(IT, "                #iter_name {\n                    idx: 0,\n                    back_idx: 0,", "                #iter_name {\n                    front: 0,\n                    back: 0,"),
+             (IT, "let t = if self.idx + self.back_idx >= #variant_count { 0 } else { #variant_count - self.idx - self.back_idx };", "let t = if self.front + self.back >= #variant_count { 0 } else { #variant_count - self.front - self.back };"),
+             (IT, "                let idx = self.idx.saturating_add(n).saturating_add(1);\n                if idx.saturating_add(self.back_idx) > #variant_count {", "                let idx = self.front.saturating_add(n).saturating_add(1);\n                if idx.saturating_add(self.back) > #variant_count {"),
+             (IT, "                    self.idx = #variant_count;\n                    ::core::option::Option::None\n                } else {\n                    self.idx = idx;", "                    self.front = #variant_count;\n                    ::core::option::Option::None\n                } else {\n                    self.front = idx;"),
+             (IT, "                let back_idx = self.back_idx + 1;\n\n                if self.idx + back_idx > #variant_count {", "                let back_idx = self.back + 1;\n\n                if self.front + back_idx > #variant_count {"),
+             (IT, "                    self.back_idx = #variant_count;\n                    ::core::option::Option::None\n                } else {\n                    self.back_idx = back_idx;\n                    #iter_name::get(self, #variant_count - self.back_idx)", "                    self.back = #variant_count;\n                    ::core::option::Option::None\n                } else {\n                    self.back = back_idx;\n                    #iter_name::get(self, #variant_count - self.back)"),
+             (IT, "                    idx: self.idx,\n                    back_idx: self.back_idx,", "                    front: self.front,\n                    back: self.back,")])
+ctl("r_generator_fn_renamed", VP, "    pub fn get_preferred_name(\n", "    pub fn preferred_name(\n", "generator helper get_preferred_name renamed",
+    helpers=[(DI, "            .get_preferred_name(type_properties.case_style, type_properties.prefix.as_ref());", "            .preferred_name(type_properties.case_style, type_properties.prefix.as_ref());"),
+             (AR, "            .get_preferred_name(type_properties.case_style, type_properties.prefix.as_ref());", "            .preferred_name(type_properties.case_style, type_properties.prefix.as_ref());"),
+             ("strum_macros/src/macros/strings/to_string.rs", "            .get_preferred_name(type_properties.case_style, type_properties.prefix.as_ref());", "            .preferred_name(type_properties.case_style, type_properties.prefix.as_ref());"),
+             (VN, "                .get_preferred_name(type_properties.case_style, type_properties.prefix.as_ref()))", "                .preferred_name(type_properties.case_style, type_properties.prefix.as_ref()))")])
+ctl("r_is_matches", IS, "                    match self {\n                        &#enum_name::#variant_name { .. } => true,\n                        _ => false\n                    }", "                    matches!(self, &#enum_name::#variant_name { .. })",
+    "EnumIs predicates use matches!")
+ctl("r_from_repr_nested_ok", FR, "        arms.push(quote! {v if v == #const_var_ident => ::core::option::Option::Some(#name::#ident #params)});", "        arms.push(quote! {v if #const_var_ident == v => ::core::option::Option::Some(#name::#ident #params)});",
+    "from_repr guard written as `CONST == v`")
+ctl("r_from_str_no_return", FS, "            ::core::result::Result::Ok(match s {\n                #(#standard_match_arms)*\n                _ => return #default,\n            })", "            match s {\n                #(#ok_arms)*\n                _ => #default,\n            }",
+    "from_str wraps every arm in Ok(..) instead of wrapping the match and returning from the wildcard",
+    helpers=[(FS, "    let standard_match_body = if standard_match_arms.is_empty() {", "    let ok_arms: Vec<TokenStream> = standard_match_arms.iter().map(|a| { let mut it = a.clone().into_iter().collect::<Vec<_>>(); let _ = &mut it; wrap_ok(a) }).collect();\n    let standard_match_body = if standard_match_arms.is_empty() {"),
+             (FS, "#[rustversion::before(1.34)]\nfn try_from_str(", "fn wrap_ok(arm: &TokenStream) -> TokenStream {\n    // `pat [if guard] => value,`  ->  `pat [if guard] => Ok(value),`\n    let toks: Vec<proc_macro2::TokenTree> = arm.clone().into_iter().collect();\n    let mut split = 0;\n    for i in 0..toks.len().saturating_sub(1) {\n        if let (proc_macro2::TokenTree::Punct(a), proc_macro2::TokenTree::Punct(b)) = (&toks[i], &toks[i + 1]) {\n            if a.as_char() == '=' && b.as_char() == '>' && a.spacing() == proc_macro2::Spacing::Joint { split = i; break; }\n        }\n    }\n    let head: TokenStream = toks[..split].iter().cloned().collect();\n    let mut tail: Vec<proc_macro2::TokenTree> = toks[split + 2..].to_vec();\n    if let Some(proc_macro2::TokenTree::Punct(p)) = tail.last() { if p.as_char() == ',' { tail.pop(); } }\n    let tail: TokenStream = tail.into_iter().collect();\n    quote! { #head => ::core::result::Result::Ok(#tail), }\n}\n\n#[rustversion::before(1.34)]\nfn try_from_str(")])
+ctl("r_table_field_prefix", TB, "        let snake_case = format_ident!(\"_{}\", snakify(&pascal_case.to_string()));", "        let snake_case = format_ident!(\"slot_{}\", snakify(&pascal_case.to_string()));",
+    "EnumTable slot fields get another private prefix")
+ctl("r_count_loop", EC, "        Data::Enum(v) => v.variants.iter().try_fold(0usize, |acc, v| {\n            if v.get_variant_properties()?.disabled.is_none() {\n                Ok::<usize, syn::Error>(acc + 1usize)\n            } else {\n                Ok::<usize, syn::Error>(acc)\n            }\n        })?,",
+    "        Data::Enum(v) => {\n            let mut count = 0usize;\n            for v in &v.variants {\n                if v.get_variant_properties()?.disabled.is_none() {\n                    count += 1;\n                }\n            }\n            count\n        }",
+    "EnumCount counts with a loop instead of try_fold")
